@@ -49,6 +49,7 @@ MAP = [
     ('a snapshot child still running', ['C06', 'C09']),
     ('a removed member no longer counts as connected', ['C20', 'C07']),
     ('a lock whose release request was lost', ['C16']),
+    ('accepted connections get the configured TCP keepalive', ['C14']),
 ]
 
 
